@@ -272,6 +272,22 @@ def gen(fam, tier):
                             yield {'family': fam.name, 'text': text, 'states': states, 'partial': partial, 'combo': [c[0] for c in combo], 'fail_before_save': op}
                         for hn in (('language',), ('context',), ('language', 'context'), ('population',), ('language', 'context', 'population')):
                             yield {'family': fam.name, 'text': with_header(text, hn), 'states': states, 'partial': partial, 'combo': [c[0] for c in combo], 'header': list(hn)}
+    # a deleted instance that is still referred to from INSIDE an aggregate: first, middle, last element, with and without an attribute behind the aggregate
+    # (what is left in its place is not judged; the session must be stable from the first load on)
+    for ent, params in DANGLING_IN_AGGREGATE.get(fam.name, []):
+        combo = ((ent, params, False),)
+        text, ids = population(fam, combo)
+        for s2, s10 in itertools.product(STATES, repeat=2):
+            if s2 != 'D' and not (s10 == 'D' and ent.endswith('_REF_REF')):
+                continue
+            yield {'family': fam.name, 'text': text, 'states': [(1, 'C'), (2, s2), (ids[0], s10)], 'partial': [(1, False), (2, False), (ids[0], False)], 'combo': [ent], 'dangling': True}
+
+
+DANGLING_IN_AGGREGATE = {
+    'fk': [('E_LIST_REF', ['(#2,#1,#1)']), ('E_LIST_REF', ['(#1,#2,#1)']), ('E_LIST_REF', ['(#1,#1,#2)']), ('E_LIST_REF', ['(#2,#2)']),
+           ('P_LIST_REF_STRI', ['(#1,#2)', "'behind'"]), ('P_LIST_REF_STRI', ['(#2,#1)', "'behind'"]), ('P_LIST_REF_REF', ['(#1,#2)', '#1']), ('P_LIST_REF_REF', ['(#2)', '#2']),
+           ('E_SET_REF', ['(#1,#2)']), ('E_BAG_REF', ['(#2,#1,#2)']), ('E_LIST_SET_REF', ['((#1,#2),(#2,#1))']), ('P_REF_LIST_REF', ['#2', '(#1,#2,#1)'])],
+}
 
 
 def fams():
